@@ -29,6 +29,11 @@ Streams
                    collection's own methods / item writes / reassignment to the collection being traversed) in its own method with a
                    拦截异常 handler so that the run goes on after each fault; constructors for predefined names; 其 / 此
                    outside methods; nested definitions
+  mods             two- and three-MODULE programs (op `runfiles`, props/c10mods.py): method values, objects and classes cross module
+                   borders (passed, returned, stored in lists, called / constructed over there), faults of every kind planted at
+                   lines placed against the END of the other module's line table (short helper / long main and the reverse), every
+                   error rendered; judged: no panic / crash / timeout and a well-formed rendered error; evaluator model
+                   (`runfilesast`) compared where it answers
 Correspondence Go ≈ model is checked on every `value` case the model answers (list, dictionary, number and text
 members, `#` / 之 reductions, default and 异常 constructors, 显示, display, copy, equality); the rest is `unmodelled`
 (texts that are not valid UTF-8, case mapping of non-English cased letters, 转换数值 on inf / nan / hexadecimal /
@@ -608,6 +613,11 @@ def httpval_cases(ctx):
             cases += ['httpval %s %s %s %s %s' % (k, a, b, c, d) for c in core for d in core[:4]]
         for _ in range(ctx.n(300, 20000)):
             cases.append('httpval %s %s' % (k, ' '.join(rng.choice(pool) for _ in range(rng.randint(2, 4)))))
+    # a request body (dictionary) that cannot be written as JSON — a number that is not finite, at the top or below a list / a
+    # dictionary: the constructor fails with the JSON exception (never a half-built request, never a panic)
+    for body in ('{61=%s}' % N('inf'), '{61=%s}' % N('nan'), '{61=[%s]}' % N('-inf'), '{61=%s,62={63=%s}}' % (N('1'), N('nan')),
+                 '{61=[%s,%s]}' % (N('1'), S('a'))):
+        cases.append('httpval req %s %s %s' % (S('GET'), S('/a'), body))
     return cases
 
 
@@ -995,6 +1005,8 @@ def run_streams(ctx):
     judge(ctx, 'loop-self', lc, compare_model=False)
     ctx.streams.append({'stream': 'loop-self', 'cases': len(lc)})
     judge_programs(ctx, t)
+    from props import c10mods
+    c10mods.run_stream(ctx, go_run, ctx.n(600, 40000))
     ctx.exhaustive = True   # arity ≤ 2 over the pools is enumerated completely
     ctx.notes.append('full product for arity ≤ 2: receivers %d × member table × pool %d (arity 2: %d²)' % (
         sum(len(v) for v in RECEIVERS.values()), len(POOL), len(CORE if ctx.quick() else POOL)))
@@ -1022,6 +1034,11 @@ def replay(ctx, data):
     print('go   :', p.stdout.strip() or ('crash exit%d %s' % (p.returncode, p.stderr[-300:].replace('\n', ' | '))))
     if case.startswith(('value ', 'vitext ', 'httpval ')):
         print('model:', ctx.run_lean([case])[0])
+    elif case.startswith('runfiles '):
+        f = case.split(' ')
+        for i in range(int(f[1])):
+            print('--- file %s' % bytes.fromhex(f[2 + 2 * i]).decode())
+            print(''.join(chr(int(x, 16)) for x in f[3 + 2 * i].split('.')) if f[3 + 2 * i] != '-' else '')
     else:
         f = case.split(' ')
         src = ''.join(chr(int(x, 16)) for x in f[1].split('.')) if f[1] != '-' else ''
